@@ -408,7 +408,14 @@ def run(model, tier="quick"):
     from . import C01 as _C01, C03 as _C03
     effects_check(res, model, "UniLpMarket.transfer_position_out", _C01.REF_TRANSFER_OUT, "an LP position can be lent to ONE vault only", _C01.FX, keep_raise_effects=True)
     effects_check(res, model, "UniLpMarket.transfer_position_in", _C01.REF_TRANSFER_IN, "only a lent position is taken back", _C01.FX, keep_raise_effects=True)
-    effects_check(res, model, "SqueethMarket._redeem_uni_token", _C01.REF_REDEEM, "redeemed LP amounts include the accrued fees (collect_fee's amounts)", _C01.FX)
+    effects_check(res, model, "SqueethMarket._redeem_uni_token", _C01.REF_REDEEM, "redeemed LP amounts include the accrued fees and are (weth, osqth) by token, whatever the pool's quote token", _C01.FX)
+    # (base, quote)-ordered results of the pool taken apart outside the Uniswap package: orientation must be consulted
+    from ..rules.orientx import orientation_rule
+    if "R-ORIENT" not in res.rules:
+        res.rules.append("R-ORIENT")
+    ox = orientation_rule(model, res)
+    res.floor("base_quote_pair_producers", ox["producers"], 5)
+    res.floor("base_quote_pairs_consumed_outside_uniswap", ox["sites"], 1)
     wfx = ["sub", "add", "subtract_from_balance", "add_to_balance", "__add_asset", "_record_action_callback"]
     effects_check(res, model, "Asset.sub", _C03.REF_ASSET_SUB, "wallet debit: an empty or insufficient balance rejects", wfx)
     from ..rules.fresh import fresh_rule
@@ -423,7 +430,7 @@ def run(model, tier="quick"):
 
 
 MANIFEST = {
-    "technique": "formula and ledger identity against references (value numbering), constant table, post-dominance of the safety check over effect traces",
+    "technique": "formula and ledger identity against references (value numbering), constant table, post-dominance of the safety check over effect traces, LP pairing and wallet-debit references, def-use rule for (base, quote) pairs consumed across markets",
     "claim": "Vault status, effective collateral, TWAP window and mean, liquidation amounts, bounty and the mint helper are "
              "identical as canonical expressions to references transcribed from the statement; the vault operations' "
              "ledgers (which amount moves between wallet and vault, clamps, records) equal reference ledgers on every "
